@@ -352,7 +352,6 @@ class KwSeen(dict):
 # keyword arguments of library functions that have no influence on the abstract value (stated one by one)
 NATIVE_KW_IGNORED = {
     'warnings.warn': {'stacklevel'},
-    'numpy.array': {'copy'}, 'numpy.asarray': {'copy'},
     'numpy.isclose': {'equal_nan'}, 'numpy.allclose': {'equal_nan'},
     'scipy.optimize.minimize': None,       # the solver is uninterpreted: rules look at what it is given
     'scipy.optimize.curve_fit': None,
@@ -1801,9 +1800,11 @@ class Frame:
                     if isinstance(v, ListV):
                         if len(v.items) != len(pos):
                             raise _RaisedExc(Raised('ValueError', target))     # could not broadcast
+                        self.int_store(base, list(v.items), target)
                         for p_, x_ in zip(pos, v.items):
                             base.items[p_] = x_
                     elif isinstance(v, (Rat, SumV)):
+                        self.int_store(base, v, target)
                         for p_ in pos:
                             base.items[p_] = v
                     else:
@@ -1824,6 +1825,7 @@ class Frame:
                 last = idx.items[-1]
                 if isinstance(last, SliceV):
                     if last.full and isinstance(v, ListV) and len(v) == len(cur):
+                        self.int_store(cur, list(v.items), target)
                         cur.items[:] = list(v.items)
                         sync_reshape(cur)
                         sync_reshape(base)
@@ -1837,12 +1839,19 @@ class Frame:
                 sync_reshape(base)
                 return
             if isinstance(base, ListV) and isinstance(idx, SliceV):
-                if idx.full and isinstance(v, ListV) and len(v) == len(base):
-                    base.items[:] = list(v.items)           # a[:] = values
+                if idx.full and isinstance(v, ListV) and (len(v) == len(base) or not getattr(base, 'is_array', False)):
+                    self.int_store(base, list(v.items), target)
+                    base.items[:] = list(v.items)           # a[:] = values (a list takes any length)
                     sync_reshape(base)
                     return
                 if idx.full and isinstance(v, ListV):
                     raise _RaisedExc(Raised('ValueError', target))
+                if idx.full and isinstance(v, (Rat, SumV)) and getattr(base, 'is_array', False) and \
+                        not any(isinstance(x, ListV) for x in base.items):
+                    self.int_store(base, v, target)
+                    base.items[:] = [v] * len(base.items)   # a[:] = scalar
+                    sync_reshape(base)
+                    return
                 raise Unsupported('slice store', target, self.module.relpath)
             if isinstance(base, ListV):
                 i = self.index(idx, len(base), target)
@@ -2489,6 +2498,15 @@ class Frame:
             v = I.D.sym(name)
         obj.attrs[attr] = v
         return v
+
+    def int_store(self, buf, values, target):
+        """a store of values into (a slice of) an array whose element type is an integer type or is taken from the
+        caller's container: anything that is not an integer constant is truncated"""
+        if getattr(buf, 'dtype', None) in ('caller', 'int'):
+            vals = values if isinstance(values, list) else [values]
+            if not all(isinstance(x, Rat) and (x.iszero() or (x.is_const() and x.const_value().denominator == 1))
+                       for x in vals):
+                self.I.dtype_hazards.append((target, self.module.relpath))
 
     def global_name(self, n):
         I = self.I
@@ -3715,6 +3733,27 @@ def _np_array(I, fr, args, kwargs, n):
     return v
 
 
+def _np_asarray(I, fr, args, kwargs, n):
+    """np.asarray / np.asanyarray (and np.array(copy=False)) hand back the very array when no conversion is needed: what
+    is then stored into the result is stored into the argument"""
+    v = args[0] if args else kwargs.get('a', kwargs.get('object'))
+    tag = _dtype_tag(_arg(args, kwargs, 1, 'dtype', None))
+    kwargs.get('copy')
+    if isinstance(v, ListV) and getattr(v, 'is_array', False) and (
+            tag is None or (tag == 'float' and getattr(v, 'dtype', None) in (None, 'float', 'caller'))):
+        return v
+    return _np_array(I, fr, args, kwargs, n)
+
+
+def _np_array_copy(I, fr, args, kwargs, n):
+    cp = kwargs.get('copy', True)
+    if cp is False or cp is None:
+        return _np_asarray(I, fr, args, kwargs, n)
+    if cp is not True:
+        raise Unsupported('np.array(copy=%r)' % (cp,), n)
+    return _np_array(I, fr, args, kwargs, n)
+
+
 FLOAT_DTYPES = ('np.double', 'np.float64', 'np.float_', 'float', 'double', 'float64', 'd', 'f8')
 
 
@@ -4919,8 +4958,9 @@ def _is_iterable(I, fr, args, kwargs, n):
 
 
 NATIVE = {
-    'numpy.array': _np_array,
-    'numpy.asarray': _np_array,
+    'numpy.array': _np_array_copy,
+    'numpy.asarray': _np_asarray,
+    'numpy.asanyarray': _np_asarray,
     'numpy.squeeze': _np_squeeze,
     'numpy.float64': _identity, 'numpy.double': _identity, 'numpy.float_': _identity,
     'numpy.ones_like': _np_like(1),
